@@ -16,6 +16,7 @@ import (
 	"runtime/debug"
 	"sort"
 	"strings"
+	"sync/atomic"
 	"time"
 )
 
@@ -150,6 +151,21 @@ func (c caseRun) modelOp(i int) string {
 
 const OpTimeout = 30 * time.Second
 
+// beats counts 50 ms ticks that this process actually got to run. The watchdog measures an
+// operation in beats, not in wall-clock time: on a starved machine (load far above the core count)
+// a 30 ms operation can take longer than 30 s of wall-clock time without hanging, and that must not
+// be reported as a hang. A hard wall-clock cap still ends a run that never returns.
+var beats int64
+
+func init() {
+	go func() {
+		t := time.NewTicker(50 * time.Millisecond)
+		for range t.C { // a Ticker drops ticks when the receiver is slow: only ticks that ran are counted
+			atomic.AddInt64(&beats, 1)
+		}
+	}()
+}
+
 func doOp(e Exec, op string) (r Result) {
 	ch := make(chan Result, 1)
 	go func() {
@@ -164,11 +180,22 @@ func doOp(e Exec, op string) (r Result) {
 		}()
 		ch <- e.Do(op)
 	}()
-	select {
-	case r = <-ch:
-		return r
-	case <-time.After(OpTimeout):
-		return Result{Impl: "hang", Fail: "operation did not return within " + OpTimeout.String(), Sig: "hang"}
+	start := atomic.LoadInt64(&beats)
+	need := int64(OpTimeout / (50 * time.Millisecond))
+	hard := time.After(10 * OpTimeout)
+	tick := time.NewTicker(250 * time.Millisecond)
+	defer tick.Stop()
+	for {
+		select {
+		case r = <-ch:
+			return r
+		case <-tick.C:
+			if atomic.LoadInt64(&beats)-start >= need {
+				return Result{Impl: "hang", Fail: "operation did not return within " + OpTimeout.String(), Sig: "hang"}
+			}
+		case <-hard:
+			return Result{Impl: "hang", Fail: "operation did not return within " + (10 * OpTimeout).String() + " (wall clock)", Sig: "hang"}
+		}
 	}
 }
 
